@@ -187,6 +187,7 @@ type Machine struct {
 
 	// stats across paths
 	UnknownBranches int
+	GoLogical       bool
 	HavocCalls      map[string]int
 	FuncsSeen       map[*ssa.Function]bool
 }
@@ -228,6 +229,7 @@ func (m *Machine) reset(prefix []int) {
 	m.ghost = map[string]Value{}
 	m.stack = nil
 	m.GoInline = false
+	m.GoLogical = false
 	m.curUnwind = m.Unwind
 }
 
@@ -251,6 +253,104 @@ func (m *Machine) Explore(fn *ssa.Function, maxPaths int, budget time.Duration) 
 		if m.Verbose {
 			fmt.Fprintf(os.Stderr, "  path %d: %s %s (steps %d, decisions %v)\n", p.ID, p.Outcome, p.Msg, p.Steps, p.Decisions)
 		}
+	}
+	return out, complete
+}
+
+// cpuTokens bounds the number of paths executed at the same time over all entries of a run.
+var cpuTokens = make(chan struct{}, 16)
+
+// WithCPU runs f holding one of the CPU tokens.
+func WithCPU(f func()) {
+	cpuTokens <- struct{}{}
+	defer func() { <-cpuTokens }()
+	f()
+}
+
+// ExploreParallel is Explore with several machines (one per worker, each with its own solver processes)
+// taking decision prefixes from one shared stack.  The set of paths is the same as Explore's; they are
+// returned in the lexicographic order of their decision vectors (= the sequential DFS order).
+func ExploreParallel(ms []*Machine, fn *ssa.Function, maxPaths int, budget time.Duration) ([]*Path, bool) {
+	if len(ms) == 1 {
+		return ms[0].Explore(fn, maxPaths, budget)
+	}
+	var (
+		mu       sync.Mutex
+		cond     = sync.NewCond(&mu)
+		work     = [][]int{{}}
+		out      []*Path
+		active   int
+		complete = true
+		start    = time.Now()
+		fatal    interface{}
+	)
+	var wg sync.WaitGroup
+	for _, m := range ms {
+		wg.Add(1)
+		go func(m *Machine) {
+			defer wg.Done()
+			for {
+				mu.Lock()
+				for len(work) == 0 && active > 0 && complete && fatal == nil {
+					cond.Wait()
+				}
+				if len(work) == 0 || !complete || fatal != nil {
+					mu.Unlock()
+					cond.Broadcast()
+					return
+				}
+				if len(out)+active >= maxPaths || (budget > 0 && time.Since(start) > budget) {
+					complete = false
+					mu.Unlock()
+					cond.Broadcast()
+					return
+				}
+				prefix := work[len(work)-1]
+				work = work[:len(work)-1]
+				active++
+				mu.Unlock()
+				cpuTokens <- struct{}{}
+				var p *Path
+				func() {
+					defer func() {
+						<-cpuTokens
+						if r := recover(); r != nil {
+							mu.Lock()
+							fatal = r
+							mu.Unlock()
+						}
+					}()
+					p = m.runOne(fn, prefix)
+				}()
+				mu.Lock()
+				active--
+				if p != nil {
+					out = append(out, p)
+					work = append(work, p.altsFound...)
+					if m.Verbose {
+						fmt.Fprintf(os.Stderr, "  path: %s %s (steps %d, decisions %v)\n", p.Outcome, p.Msg, p.Steps, p.Decisions)
+					}
+				}
+				mu.Unlock()
+				cond.Broadcast()
+			}
+		}(m)
+	}
+	wg.Wait()
+	if fatal != nil {
+		panic(fatal)
+	}
+	sort.Slice(out, func(i, j int) bool {
+		a, b := out[i].Decisions, out[j].Decisions
+		for k := 0; k < len(a) && k < len(b); k++ {
+			if a[k] != b[k] {
+				return a[k] > b[k] // the sequential DFS explores the last alternative first
+			}
+		}
+		return len(a) < len(b)
+	})
+	for i, p := range out {
+		p.ID = i
 	}
 	return out, complete
 }
@@ -296,7 +396,14 @@ func (m *Machine) stackTail(n int) []string {
 	return out
 }
 
-func (m *Machine) end(outcome, msg string) { panic(pathEnd{outcome, msg}) }
+func (m *Machine) end(outcome, msg string) {
+	if outcome == "blocked" && m.cur != nil {
+		// a logical goroutine waiting for a channel / condition nothing on this path makes ready: it
+		// idles (an observer loop, a ticker loop); only goroutines stuck on a mutex count as blocked
+		panic(gorIdle{msg})
+	}
+	panic(pathEnd{outcome, msg})
+}
 
 // ---------- decisions ----------
 
@@ -811,6 +918,13 @@ func (m *Machine) exec(fr *frame, ins ssa.Instruction) {
 			m.GoInline = false
 			fnv(args)
 			m.GoInline = true
+		} else if m.GoLogical {
+			// the started goroutine runs now as a logical goroutine: until it finishes or needs a mutex
+			// somebody else holds (then it is parked and resumed at the release); its own go statements
+			// are recorded only
+			m.GoLogical = false
+			m.spawnLogical(func() { fnv(args) })
+			m.GoLogical = true
 		} else {
 			m.spawned++
 		}
